@@ -70,10 +70,41 @@ def controls_table():
     return "\n".join(rows)
 
 
+def refactors_table():
+    silent = undec = false = stale = 0
+    first_any = 0
+    rows = ["| refactoring | kind | site | at first run | today |", "|-------------|------|------|--------------|-------|"]
+    for d in sorted(glob.glob(f"{V}/refactors/*/meta.json"), key=lambda x: [int(t) for t in re.findall(r"\d+", x.split("/")[-2])]):
+        m = json.load(open(d))
+        name = d.split("/")[-2]
+        now = m.get("alarms_now", [])
+        first = m.get("first_run_alarms", [])
+        first_any += 1 if first else 0
+        if m.get("status") in ("NOAPPLY", "NOBUILD"):
+            stale += 1
+            today = "no longer applies (conflicts with a later fix: commit)"
+        elif any(not a.startswith("ERR") for a in now):
+            false += 1
+            today = "false VIOLATION: " + "; ".join(sorted({a.split(" ")[1] for a in now if not a.startswith("ERR")}))
+        elif now:
+            undec += 1
+            today = "cannot decide (exit 2, no VIOLATION line)"
+        else:
+            silent += 1
+            if not first:
+                continue
+            today = "silent"
+        f1 = "; ".join(sorted({(a.split(" ")[1] if not a.startswith("ERR") else "cannot decide") for a in first})) or "silent"
+        rows.append(f"| {name} | {(m.get('kind') or '')[:60].replace('|', '/')} | {(m.get('site') or '')[:60].replace('|', '/')} | {f1} | {today} |")
+    rows.append("")
+    rows.append(f"{silent + undec + false + stale} refactorings: {silent} silent today, {undec} cannot decide, {false} false VIOLATION, {stale} no longer apply; {first_any} raised something when first run (rows above: everything that raised something then or does now).")
+    return "\n".join(rows)
+
+
 def main():
     p = f"{V}/DESIGN.md"
     s = open(p).read()
-    for key, fn in [("claimed", claimed_table), ("seeded", seeded_table), ("controls", controls_table)]:
+    for key, fn in [("claimed", claimed_table), ("seeded", seeded_table), ("controls", controls_table), ("refactors", refactors_table)]:
         pat = re.compile(r"(<!-- BEGIN %s -->\n).*?(<!-- END %s -->)" % (key, key), re.S)
         if not pat.search(s):
             print("marker missing:", key)
